@@ -1,23 +1,186 @@
 /-
 C12 — key-value store: last-writer-wins convergence and authentic entries only.
-Property theorems only; helper lemmas live in `KV/Lemmas.lean`.
+Property theorems + non-vacuity examples only; helper lemmas live in `KV/Lemmas.lean`.
+The model (`KV/Model.lean`) describes the code AFTER fix-kv-relabel, fix-kv-noperm, fix-kv-tsrange.
 -/
 import AnySyncModel.KV.Lemmas
 
 namespace AnySync.KV.C12
 open AnySync.KV
 
-/-- `merge` (pointwise max-by-timestamp) is a semilattice: commutative, associative, idempotent -/
+/-! ## 1. LWW is a semilattice; contents are independent of order, grouping, repetition -/
+
+/-- `merge` (pointwise max-by-timestamp) is commutative, associative, idempotent -/
 theorem lww_semilattice :
     (∀ a b : SMap, merge a b = merge b a) ∧
     (∀ a b c : SMap, merge (merge a b) c = merge a (merge b c)) ∧
-    (∀ a : SMap, merge a a = a) := by
-  refine ⟨?_, ?_, ?_⟩
-  · intro a b; funext k; exact maxO_comm _ _
-  · intro a b c; funext k; exact maxO_assoc _ _ _
-  · intro a; funext k; exact maxO_idem _
+    (∀ a : SMap, merge a a = a) :=
+  ⟨merge_comm, merge_assoc, merge_idem⟩
 
 example : merge (single ⟨1, 7, 7, 5, true, true, true, true, true⟩) (single ⟨2, 7, 7, 9, true, true, true, true, true⟩) 7
     = some (9, 2) := by decide
+
+/-- After ANY history of pushed / pulled batches and local writes, with ANY storage faults, the
+contents are the LWW merge of the values received (acceptable values of the writes that did not
+fail). Hypotheses: distinct timestamps per slot (`TsDistinct`), local clock inside the exact range. -/
+theorem contents_eq_lww_of_received (U : List Val) (hd : TsDistinct U) (ops : List Op)
+    (hU : ∀ o ∈ ops, ∀ v ∈ opVals o, v ∈ U) (hr : LocalRange ops) :
+    view (run State.init ops).store = ofList (received State.init ops) := by
+  have := (run_view U hd ops State.init (good_init U) hU hr).1
+  rw [this, view_init, merge_empty_left]
+
+/-- Any two fault-free sequences of batches carrying the same SET of values (any permutation, any
+batching, any repetition) leave the same contents, namely the merge of the acceptable ones. -/
+theorem setRaw_any_order (U : List Val) (hd : TsDistinct U) (bs1 bs2 : List (List Val))
+    (h1 : ∀ b ∈ bs1, ∀ v ∈ b, v ∈ U) (h2 : ∀ b ∈ bs2, ∀ v ∈ b, v ∈ U)
+    (hsame : ∀ v, v ∈ bs1.flatten ↔ v ∈ bs2.flatten) :
+    view (bs1.foldl (fun s b => (setRaw .none b s).1) State.init).store =
+      view (bs2.foldl (fun s b => (setRaw .none b s).1) State.init).store ∧
+    view (bs1.foldl (fun s b => (setRaw .none b s).1) State.init).store =
+      ofList (bs1.flatten.filter acceptable) := by
+  have e1 := (foldl_setRaw_view U hd bs1 State.init (good_init U) h1).1
+  have e2 := (foldl_setRaw_view U hd bs2 State.init (good_init U) h2).1
+  rw [e1, e2, view_init, merge_empty_left, merge_empty_left]
+  refine ⟨ofList_congr _ _ ?_, rfl⟩
+  intro v; simp only [List.mem_filter]; rw [hsame v]
+
+example : TsDistinct [⟨1, 7, 7, 5, true, true, true, true, true⟩, ⟨2, 7, 7, 9, true, true, true, true, true⟩] := by
+  intro v hv w hw hs ht
+  simp only [List.mem_cons, List.mem_nil_iff, or_false] at hv hw
+  rcases hv with rfl | rfl <;> rcases hw with rfl | rfl <;> simp_all
+
+/-- the hypothesis "distinct timestamps per slot" cannot be dropped: with a tie the survivor is the
+first arrival (the model mirrors the code's `>=`), so two orders disagree -/
+theorem tie_is_order_dependent :
+    ∃ v w : Val, v.slot = w.slot ∧ v.ts = w.ts ∧ acceptable v = true ∧ acceptable w = true ∧
+      view ((setRaw .none [w] (setRaw .none [v] State.init).1).1).store ≠
+      view ((setRaw .none [v] (setRaw .none [w] State.init).1).1).store := by
+  refine ⟨⟨1, 7, 7, 5, true, true, true, true, true⟩, ⟨2, 7, 7, 5, true, true, true, true, true⟩, rfl, rfl, by decide, by decide, ?_⟩
+  intro h
+  have := congrFun h 7
+  revert this; decide
+
+/-! ## 2. one exchange equalises -/
+
+/-- the index is a function of the contents (so equal contents advertise equal indexes / hashes) -/
+theorem index_determined_by_contents (s t : State) (hs : Consistent s) (ht : Consistent t)
+    (h : view s.store = view t.store) : ∀ k, lookup s.index k = lookup t.index k := by
+  intro k
+  rw [hs.1 k, ht.1 k]
+  have := congrFun h k
+  unfold view at this; unfold indexOf
+  cases h1 : lookup s.store k <;> cases h2 : lookup t.store k <;> simp [h1, h2, entryOf] at this ⊢
+  exact congrArg headOf this.1
+
+/-- One `syncWithPeer` between two consistent stores holding authentic rows: afterwards both hold
+the merge of what either held, hence they are equal, and so are their indexes.
+(The id classification computed by the ldiff recursion is taken as exact — that is C07.) -/
+theorem one_exchange_equalises (U : List Val) (hd : TsDistinct U) (a b : State)
+    (ha : Good U a) (hb : Good U b) (haa : Authentic a.store) (hab : Authentic b.store) :
+    view (exchange a b).1.store = merge (view a.store) (view b.store) ∧
+    view (exchange a b).2.store = merge (view a.store) (view b.store) ∧
+    Consistent (exchange a b).1 ∧ Consistent (exchange a b).2 ∧
+    (∀ k, lookup (exchange a b).1.index k = lookup (exchange a b).2.index k) := by
+  have hpushU : ∀ v ∈ valuesAt a.store (pushIds a.index b.index), v ∈ U := by
+    intro v hv; obtain ⟨k, hk⟩ := valuesAt_mem _ _ v hv; exact ha.rows k v hk
+  have hpullU : ∀ v ∈ valuesAt b.store (pullIds a.index b.index), v ∈ U := by
+    intro v hv; obtain ⟨k, hk⟩ := valuesAt_mem _ _ v hv; exact hb.rows k v hk
+  -- server side
+  have hB : view (exchange a b).2.store = merge (view a.store) (view b.store) ∧ Good U (exchange a b).2 := by
+    simp only [exchange]
+    refine ⟨?_, setRaw_good U .none _ b hb hpushU⟩
+    rcases setRaw_view U hd .none _ b hb hpushU with ⟨h1, _⟩ | ⟨_, h2⟩
+    · exact absurd h1 (setRaw_none_ne_err _ b)
+    · rw [h2, filter_acceptable_of_authentic a.store haa, merge_pushed U hd a b ha hb, merge_comm]
+  -- client side
+  have hA : view (exchange a b).1.store = merge (view a.store) (view b.store) ∧ Good U (exchange a b).1 := by
+    simp only [exchange]
+    have hch : ∀ c ∈ chunks (applyBatchSize - 1) (valuesAt b.store (pullIds a.index b.index)).length
+        (valuesAt b.store (pullIds a.index b.index)), ∀ v ∈ c, v ∈ U :=
+      fun c hc v hv => hpullU v (chunks_mem _ _ _ (Nat.le_refl _) c hc v hv)
+    have := foldl_setRaw_view U hd _ a ha hch
+    refine ⟨?_, this.2⟩
+    rw [this.1, chunks_flatten _ _ _ (Nat.le_refl _), filter_acceptable_of_authentic b.store hab]
+    exact merge_pushed U hd b a hb ha
+  refine ⟨hA.1, hB.1, hA.2.cons, hB.2.cons, ?_⟩
+  exact index_determined_by_contents _ _ hA.2.cons hB.2.cons (hA.1.trans hB.1.symm)
+
+/-! ## 3. advertised index == index rebuilt from the store, always -/
+
+/-- After every operation of any history — including writes hit by a storage fault at any point of
+the transaction — the in-memory index and the persisted heads entry both equal the index rebuilt
+from the collection. No hypothesis on timestamps or on the values. -/
+theorem index_eq_store_always (ops : List Op) : Consistent (run State.init ops) :=
+  run_consistent ops State.init (good_init []).cons
+
+/-- the single-step form, from any consistent state, for every fault position -/
+theorem index_eq_store_step (f : Fault) (batch : List Val) (s : State) (h : Consistent s) :
+    Consistent (setRaw f batch s).1 ∧ ∀ own v, Consistent (localSet f own v s).1 :=
+  ⟨setRaw_consistent f batch s h, fun own v => localSet_consistent f own v s h⟩
+
+/-- a failed write changes neither the collection nor the index nor the heads entry (extensionally) -/
+theorem failed_write_changes_nothing (f : Fault) (batch : List Val) (s : State) (h : Consistent s)
+    (herr : (setRaw f batch s).2 = .err) :
+    (setRaw f batch s).1.store = s.store ∧
+    (∀ k, lookup (setRaw f batch s).1.index k = lookup s.index k) ∧
+    (∀ k, lookup (setRaw f batch s).1.adv k = lookup s.adv k) := by
+  have hc := setRaw_consistent f batch s h
+  have hs : (setRaw f batch s).1.store = s.store := by
+    rw [setRaw_eq] at herr ⊢
+    split at herr
+    · simp at herr
+    · rename_i hne
+      simp only [hne]
+      rcases innerSet_cases f (kvsOf s.index batch) s with ⟨hf, hs, _, _⟩ | ⟨o, ho, ht, _⟩
+      · simp [hf, hs]
+      · simp [ht] at herr
+  exact ⟨hs, fun k => by rw [hc.1 k, hs, h.1 k], fun k => by rw [hc.2 k, hs, h.2 k]⟩
+
+example : (setRaw .commit [⟨1, 7, 7, 5, true, true, true, true, true⟩] State.init).2 = .err := by decide
+
+/-! ## 4. stored ⇒ authentic -/
+
+/-- Every row ever stored — by any history, under any faults — is acceptable: it decoded, BOTH
+signatures verify over its bytes, it is filed under the slot named inside the signed bytes, the
+cited ACL record is known and the signing account could write there, and its timestamp is in the
+exact range. (Locally written values are acceptable by `LocalAuthentic`: the store signs them itself.) -/
+theorem stored_implies_authentic (ops : List Op) (hl : LocalAuthentic ops) :
+    ∀ k v, lookup (run State.init ops).store k = some v →
+      v.decodes = true ∧ v.idSigOk = true ∧ v.peerSigOk = true ∧ k = v.innerSlot ∧
+      v.aclKnown = true ∧ v.canWrite = true ∧ 0 ≤ v.ts ∧ v.ts < tsLimit := by
+  intro k v hv
+  have h := run_authentic ops State.init (fun k v h => by simp [State.init, lookup] at h) hl k v hv
+  obtain ⟨⟨a, b, c, d, e, f, g, i⟩, hk⟩ := h
+  exact ⟨a, b, c, by rw [← hk, d], e, f, g, i⟩
+
+/-- each conjunct is load-bearing: dropping any one flag makes `SetRaw` skip the value -/
+theorem each_check_is_enforced (v : Val) (s : State) (f : Fault)
+    (h : v.decodes = false ∨ v.idSigOk = false ∨ v.peerSigOk = false ∨ v.slot ≠ v.innerSlot ∨
+         v.aclKnown = false ∨ v.canWrite = false ∨ v.ts < 0 ∨ tsLimit ≤ v.ts) :
+    setRaw f [v] s = (s, .ok []) := by
+  have : kvsOf s.index [v] = [] := by
+    unfold kvsOf
+    have hp : (fromProto v && passes s.index v) = false := by
+      unfold fromProto passes
+      rcases h with h | h | h | h | h | h | h | h
+      · simp [h]
+      · simp [h]
+      · simp [h]
+      · simp [h]
+      · simp [h]
+      · simp [h]
+      · have : ¬ (0 ≤ v.ts) := by omega
+        simp [this]
+      · have : ¬ (v.ts < tsLimit) := by omega
+        simp [this]
+    simp only [List.filter_cons, List.filter_nil]
+    cases h1 : fromProto v
+    · simp
+    · simp only [if_true, List.filter_cons, List.filter_nil]
+      rw [h1] at hp; simp at hp; simp [hp]
+  rw [setRaw_eq, this]; simp
+
+example : ∃ v, lookup (run State.init [.raw .none [⟨1, 7, 7, 5, true, true, true, true, true⟩]]).store 7 = some v := by
+  exact ⟨⟨1, 7, 7, 5, true, true, true, true, true⟩, by decide⟩
 
 end AnySync.KV.C12
